@@ -83,26 +83,38 @@ theorem c07_assert_not_contains_subset : Correct "assert_not_contains_subset" co
 
 theorem c07_assert_is : Correct "assert_is" cond_assert_is := by
   refine correct_of _ _ _ rfl fun c _ => ?_
-  unfold cond_assert_is
-  rw [eval, eval_actual_left, eval_actual_right]
-  simp only [evalCmp, pyIs_cond]
-  cases h : sameObject c.left c.right <;> c07_crunch
+  have hs : pyIs c.left.unwrapped c.right.unwrapped = sameObject c.left c.right := rfl
+  first
+    | (unfold cond_assert_is
+       rw [eval, eval_actual_left, eval_actual_right]
+       simp only [evalCmp, pyIs_cond]
+       cases h : sameObject c.left c.right <;> c07_crunch)
+    -- the same condition written with `unwrap_value(...)` on both operands
+    | (simp only [cond_assert_is, eval, evalCmp, Ctx.side, hs]
+       cases h : sameObject c.left c.right <;> c07_crunch)
 
 theorem c07_assert_is_not : Correct "assert_is_not" cond_assert_is_not := by
   refine correct_of _ _ _ rfl fun c _ => ?_
-  unfold cond_assert_is_not
-  rw [eval, eval_actual_left, eval_actual_right]
-  simp only [evalCmp, pyIs_cond]
-  cases h : sameObject c.left c.right <;> c07_crunch
+  have hs : pyIs c.left.unwrapped c.right.unwrapped = sameObject c.left c.right := rfl
+  first
+    | (unfold cond_assert_is_not
+       rw [eval, eval_actual_left, eval_actual_right]
+       simp only [evalCmp, pyIs_cond]
+       cases h : sameObject c.left c.right <;> c07_crunch)
+    -- the same condition written with `unwrap_value(...)` on both operands
+    | (simp only [cond_assert_is_not, eval, evalCmp, Ctx.side, hs]
+       cases h : sameObject c.left c.right <;> c07_crunch)
 
 theorem c07_assert_is_none : Correct "assert_is_none" cond_assert_is_none := by
   refine correct_of _ _ _ rfl fun c _ => ?_
+  -- (covers both spellings: the `if left.is_sandboxed` form and `unwrap_value(left.value)`)
   simp only [cond_assert_is_none, eval, evalCmp, Ctx.side, V.ofBool, V.fresh, truthy]
   cases hl : c.left.px <;> cases hv : c.left.v <;>
     simp [hl, hv, evalOutcome, relOutcome, V.ofBool, V.fresh, truthy, pyIs, V.unwrapped, isNoneVal]
 
 theorem c07_assert_is_not_none : Correct "assert_is_not_none" cond_assert_is_not_none := by
   refine correct_of _ _ _ rfl fun c _ => ?_
+  -- (covers both spellings: the `if left.is_sandboxed` form and `unwrap_value(left.value)`)
   simp only [cond_assert_is_not_none, eval, evalCmp, Ctx.side, V.ofBool, V.fresh, truthy]
   cases hl : c.left.px <;> cases hv : c.left.v <;>
     simp [hl, hv, evalOutcome, relOutcome, V.ofBool, V.fresh, truthy, pyIs, V.unwrapped, isNoneVal]
@@ -459,6 +471,78 @@ theorem c07_negation_exclusive : ∀ p ∈ negationPairs, ∃ ca ca' rel,
       negation_exclusive_of _ _ _ _ _ rfl rfl c07_assert_output_contains c07_assert_not_output_contains c hne b hev⟩
   · exact ⟨cond_assert_output_regex, cond_assert_not_output_regex, _, rfl, rfl, rfl, fun c b hne hev =>
       negation_exclusive_of _ _ _ _ _ rfl rfl c07_assert_output_regex c07_assert_not_output_regex c hne b hev⟩
+
+/-! ## complementary ordering / length assertions -/
+
+/-- `<` / `>=` and `<=` / `>` are complementary exactly on operands that are comparable and totally
+    ordered (everything but two sets neither of which contains the other). -/
+theorem c07_order_negation_exclusive (c : Ctx) (hne : anyErr c = false) (o : Ord4)
+    (hcmp : pyCmp c.left.v c.right.v = .ok o) (hu : o ≠ .un) :
+    ((outcome wrapperGuard cond_assert_less c = .silent ∧
+        outcome wrapperGuard cond_assert_greater_equal c = .fires) ∨
+      (outcome wrapperGuard cond_assert_less c = .fires ∧
+        outcome wrapperGuard cond_assert_greater_equal c = .silent)) ∧
+    ((outcome wrapperGuard cond_assert_less_equal c = .silent ∧
+        outcome wrapperGuard cond_assert_greater c = .fires) ∨
+      (outcome wrapperGuard cond_assert_less_equal c = .fires ∧
+        outcome wrapperGuard cond_assert_greater c = .silent)) := by
+  obtain ⟨r1, h1, e1⟩ := c07_assert_less
+  obtain ⟨r2, h2, e2⟩ := c07_assert_greater_equal
+  obtain ⟨r3, h3, e3⟩ := c07_assert_less_equal
+  obtain ⟨r4, h4, e4⟩ := c07_assert_greater
+  cases h1; cases h2; cases h3; cases h4
+  rw [e1 c, e2 c, e3 c, e4 c]
+  simp only [specOutcome, hne, cmpRel, hcmp, Except.map]
+  cases o <;> first | (exact absurd rfl hu) | (simp [relOutcome] <;> decide)
+
+theorem lenRel_complement (c : Ctx) (t t' : Ord4 → Bool) (hc : ∀ o, o ≠ .un → t' o = !t o) (b : Bool)
+    (hev : lenRel c t = .ok b) : lenRel c t' = .ok (!b) := by
+  unfold lenRel at hev ⊢
+  cases hl : pyLen c.left.v with
+  | error e => rw [hl] at hev; cases hev
+  | ok n =>
+    rw [hl] at hev
+    simp only [cmpRel] at hev ⊢
+    cases hp : pyCmp (.int n) c.right.v with
+    | error e => rw [hp] at hev; cases hev
+    | ok o =>
+      rw [hp] at hev
+      have hu := pyCmp_int_left n c.right.v o hp
+      simp only [Except.map] at hev ⊢
+      cases hev
+      rw [hc o hu]
+
+/-- the two complementary pairs of length assertions -/
+theorem c07_length_negation_exclusive (c : Ctx) (hne : anyErr c = false) :
+    (∀ b, lenRel c (· == .lt) = .ok b →
+      (outcome wrapperGuard cond_assert_length_less c = .silent ∧
+        outcome wrapperGuard cond_assert_length_greater_equal c = .fires) ∨
+      (outcome wrapperGuard cond_assert_length_less c = .fires ∧
+        outcome wrapperGuard cond_assert_length_greater_equal c = .silent)) ∧
+    (∀ b, lenRel c (fun o => o == .lt || o == .eq) = .ok b →
+      (outcome wrapperGuard cond_assert_length_less_equal c = .silent ∧
+        outcome wrapperGuard cond_assert_length_greater c = .fires) ∨
+      (outcome wrapperGuard cond_assert_length_less_equal c = .fires ∧
+        outcome wrapperGuard cond_assert_length_greater c = .silent)) := by
+  constructor
+  · intro b hev
+    have h2 := lenRel_complement c (· == .lt) (fun o => o == .gt || o == .eq)
+      (by intro o ho; cases o <;> simp_all) b hev
+    obtain ⟨r1, h1, e1⟩ := c07_assert_length_less
+    obtain ⟨r2, h2', e2⟩ := c07_assert_length_greater_equal
+    cases h1; cases h2'
+    rw [e1 c, e2 c]
+    simp only [specOutcome, hne, hev, h2]
+    cases b <;> simp [relOutcome]
+  · intro b hev
+    have h2 := lenRel_complement c (fun o => o == .lt || o == .eq) (· == .gt)
+      (by intro o ho; cases o <;> simp_all) b hev
+    obtain ⟨r1, h1, e1⟩ := c07_assert_length_less_equal
+    obtain ⟨r2, h2', e2⟩ := c07_assert_length_greater
+    cases h1; cases h2'
+    rw [e1 c, e2 c]
+    simp only [specOutcome, hne, hev, h2]
+    cases b <;> simp [relOutcome]
 
 /-! ## equality: tolerance and normalisation do not depend on the argument order -/
 
